@@ -17,13 +17,13 @@ ASSUMPTIONS = ['congruence modulus is a concrete positive number (1, 3, 2*pi as 
                'eigenvector/entry comparers: 2x2 (3x3 thorough) matrices / vectors of symbolic entries; absolute tolerances symbolic, percentage tolerances from a list']
 BOUNDS = {'quick': 'between: all reals; congruence: 3 moduli x symbolic target/input/tolerance; eigenvector 2x2; entry comparer 2-vectors and 2x2, 1-2 samples; '
                    'LinearComparer equals/offset with 3 scalar samples (NRA, 30 s cap)', 'thorough': 'eigenvector 3x3, entry comparer 2x3 with 2 samples'}
-OUTSIDE = ['vector_span_comparer, vector_phase_comparer, LinearComparer proportional/linear modes (np.linalg.lstsq is LAPACK)', 'complex targets',
+OUTSIDE = ['vector_span_comparer beyond one real spanning vector (stubbed least squares), vector_phase_comparer, LinearComparer proportional/linear modes (np.linalg.lstsq is LAPACK)', 'complex targets',
            'invariance of the eigenvector verdict under rescaling with percentage tolerance (NRA timeout in probes)']
 DEADLINE = {'quick': 170, 'thorough': 1500}
 FUNCS = ['comparers.between_comparer', 'comparers.congruence_comparer', 'comparers.eigenvector_comparer', 'comparers.MatrixEntryComparer.__call__',
          'comparers.EqualityComparer.__call__', 'linear_comparer.LinearComparer.__call__/get_equals_fit_error/get_offset_fit_error/check_comparing_zero',
          'mathfuncs.within_tolerance', 'mathfuncs.is_nearly_zero', 'MatrixGrader.validate_student_input_shape', 'MatrixGrader.check_response']
-STUBS = ['comparer utils built from the real within_tolerance / validate_student_input_shape']
+STUBS = ['comparer utils built from the real within_tolerance / validate_student_input_shape', 'span1: comparers.np.linalg.lstsq -> exact projection onto one real column (object arrays only)']
 Utils = collections.namedtuple('Utils', ['tolerance', 'within_tolerance'])
 MUtils = collections.namedtuple('Utils', ['tolerance', 'within_tolerance', 'validate_shape'])
 
@@ -225,6 +225,66 @@ def h_linear(E, mode):
     return 'ok'
 
 
+class _Lstsq1:
+    """np.linalg for the comparers module: least squares against ONE real column on object arrays = the exact projection formula"""
+
+    def __getattr__(self, n):
+        return getattr(np.linalg, n)
+
+    def lstsq(self, A, b, rcond=None):
+        if isinstance(A, np.ndarray) and A.dtype == object and A.ndim == 2 and A.shape[1] == 1:
+            v = [A[i, 0] for i in range(A.shape[0])]
+            vv = sum(x * x for x in v)
+            coef = sum(x * y for x, y in zip(v, b)) / vv
+            res = sum((y - coef * x) * (y - coef * x) for x, y in zip(v, b))
+            out = np.empty((1,), dtype=object)
+            out[0] = res
+            c = np.empty((1,), dtype=object)
+            c[0] = coef
+            return c, out, 1, None
+        return np.linalg.lstsq(A, b, rcond=rcond)
+
+
+class _NpWithLstsq:
+    linalg = _Lstsq1()
+
+    def __getattr__(self, n):
+        return getattr(np, n)
+
+
+def h_span1(E, n, tolkind):
+    """vector_span_comparer with one real spanning vector (least squares stubbed by the exact projection): accepted iff the student vector is
+    non-zero and its residual against the span is within tolerance of the STUDENT vector's norm"""
+    import mitxgraders.comparers.comparers as CM
+    from mitxgraders.comparers import vector_span_comparer
+    v = _arr(E, 'v', (n,), 1, 3)
+    s_ = _arr(E, 's', (n,), -3, 3)
+    tol = E.real('tol', 0, 1) if tolkind == 'abs' else tolkind
+    if E.mode == 'conc':
+        r = vector_span_comparer([v], s_, utils_for(tol, matrix=True))
+    else:
+        with shadow(CM, np=_NpWithLstsq()):
+            r = vector_span_comparer([v], s_, utils_for(tol, matrix=True))
+    s2 = sum(s_[i] * s_[i] for i in range(n))
+    vv = sum(v[i] * v[i] for i in range(n))
+    vs = sum(v[i] * s_[i] for i in range(n))
+    if tolkind == 'abs':
+        zero = near_le(s2, tol * tol)
+        bound2 = tol * tol
+    else:
+        p = Fraction(float(tolkind[:-1]) * 0.01)
+        zero = near_eq(s2, 0)
+        bound2 = s2 * p * p
+    if isinstance(r, dict):
+        E.check('zero-vector-refused-with-message', sand(zero, r['grade_decimal'] == 0, 'nonzero' in r['msg']))
+        return 'zero'
+    E.check('nonzero-vector-not-refused-as-zero', snot(zero))
+    # residual^2 = |s|^2 - (v.s)^2/|v|^2  <= bound^2   <=>   |s|^2 |v|^2 - (v.s)^2 <= bound^2 |v|^2
+    within = near_le(s2 * vv - vs * vs, bound2 * vv)
+    E.check('accepted-iff-in-span-within-tolerance', siff(bool(r) if not hasattr(r, 'e') else r, within))
+    return 'ok'
+
+
 def h_linear_zero(E, shape, samples):
     """LinearComparer.check_comparing_zero / get_valid_modes: proportional and linear relations are dropped exactly when the student samples are
     all (nearly) zero or the expected samples are all exactly zero - decided for every entry value"""
@@ -277,6 +337,8 @@ def harnesses(tier):
         for detail in ('type', 'shape', None):
             for sup in (False, True):
                 add(h_shape_policy, 'shape_policy', dict(raised=raised, detail=detail, suppress=sup), 'symbolic constant')
+    for tk in ('abs', '1%'):
+        add(h_span1, 'span1', dict(n=2, tol=tk), 'one real spanning 2-vector, symbolic student vector (NRA)', expect_inconclusive=True)
     for shape, samples in [((), 3), ((2,), 2), ((3,), 1)] + ([((2, 2), 2)] if T else []):
         add(h_linear_zero, 'linear_zero', dict(shape='x'.join(map(str, shape)) or 'scalar', samples=samples), 'symbolic entries and tolerance')
         hs[-1].params = (shape, samples)
